@@ -48,3 +48,53 @@ func GetAsStringList(em map[string]string) []string {
 	}
 	return m
 }
+
+// ParseYAMLInt reads an integer the way yaml.v3 resolves a plain scalar to !!int, so that a value supplied
+// through a variable is the number the same text denotes when written as a YAML literal: underscores are
+// ignored, 0x / 0o / 0b select the base and a leading 0 means octal (`mode: 0440`). A text that is not valid
+// octal (`08`) is a decimal number for YAML as well and is read as such.
+func ParseYAMLInt(value string) (int64, bool) {
+	plain := strings.ReplaceAll(value, "_", "")
+	if i, err := strconv.ParseInt(plain, 0, 64); err == nil {
+		return i, true
+	}
+	// sign after the prefix, as accepted by yaml.v3
+	switch {
+	case strings.HasPrefix(plain, "0b"):
+		if i, err := strconv.ParseInt(plain[2:], 2, 64); err == nil {
+			return i, true
+		}
+	case strings.HasPrefix(plain, "-0b"):
+		if i, err := strconv.ParseInt("-"+plain[3:], 2, 64); err == nil {
+			return i, true
+		}
+	case strings.HasPrefix(plain, "0o"):
+		if i, err := strconv.ParseInt(plain[2:], 8, 64); err == nil {
+			return i, true
+		}
+	case strings.HasPrefix(plain, "-0o"):
+		if i, err := strconv.ParseInt("-"+plain[3:], 8, 64); err == nil {
+			return i, true
+		}
+	}
+	if i, err := strconv.ParseInt(plain, 10, 64); err == nil {
+		return i, true
+	}
+	return 0, false
+}
+
+// ParseYAMLFloat reads a number the way yaml.v3 resolves a plain scalar to !!int or !!float: every text
+// ParseYAMLInt reads is that integer, then unsigned 64-bit integers, then floats (underscores ignored).
+func ParseYAMLFloat(value string, bitSize int) (float64, error) {
+	if i, ok := ParseYAMLInt(value); ok {
+		return float64(i), nil
+	}
+	plain := strings.ReplaceAll(value, "_", "")
+	if u, err := strconv.ParseUint(plain, 0, 64); err == nil {
+		return float64(u), nil
+	}
+	if f, err := strconv.ParseFloat(plain, bitSize); err == nil {
+		return f, nil
+	}
+	return strconv.ParseFloat(value, bitSize)
+}
